@@ -151,14 +151,25 @@ def run(ck):
         t = b.blocks[a]["term"]
         if t["t"] == "switch":
             e = b.expr(t["on"])
-            if e[0] == "discr":
-                for root, path in b.resolve(e[2]):
+            causes = set()
+
+            def trace(pl, depth=0):
+                for root, path in b.resolve(pl):
                     if root[0] == "call":
                         cs = b.call_at(root[1])
-                        cause = cs.describe()
-                        # look through Try::branch to the fallible call
-        n_other += 1
-        ck.violation("5", "T5-loop-exit", b, "early-exit-caused-by:%s" % cause, "the batch loop is left before the batch is exhausted when %s fails: the remaining consumed-once events of the batch (popped timers, edge/one-shot readiness, drained synthetic events) are lost for every other source" % cause, site=b.where(a))
+                        if cs.name in ("from_residual", "branch", "map_err", "into", "from") and cs.args and depth < 6:
+                            trace(op_place(cs.args[0]) or {"l": 0, "p": [], "t": 0}, depth + 1)
+                        else:
+                            causes.add(cs.describe())
+
+            if e[0] == "discr":
+                trace(e[2])
+            causes = sorted(causes) or ["?"]
+        else:
+            causes = ["?"]
+        for cause in causes:
+          n_other += 1
+          ck.violation("5", "T5-loop-exit", b, "early-exit-caused-by:%s" % cause, "the batch loop is left before the batch is exhausted when %s fails: the remaining consumed-once events of the batch (popped timers, edge/one-shot readiness, drained synthetic events) are lost for every other source" % cause, site=b.where(a))
     if n_other == 0:
         ck.ok("5", "T5-loop-exit", b, "exits-only-on-exhaustion", "the batch loop is left only when the event iterator is exhausted", site=b.where(dl.header))
     ck.ok("5", "T5-loop-exit", b, "exhaustion-exit-exists", "the None edge of the iterator leaves the loop", site=b.where(dl.header)) if allowed else ck.anchor_missing("5", "T5-loop-exit", "exhaustion edge of the batch loop")
